@@ -4,11 +4,11 @@ package sym
 // (interpreted) filesystem values, as the real ones are.
 
 import (
-	"strings"
 	"go/token"
 	"go/types"
 	"path"
 	"sort"
+	"strings"
 )
 
 func init() {
